@@ -230,7 +230,13 @@ impl Expander {
                         // path needs one more step out to mean the same thing
                         inner.push(Stmt::Const { name: p.clone(), e: Expr::Paren(Box::new(add_super(a))) });
                     }
-                    inner.extend(self.block(&mbody, depth + 1)?);
+                    // the arguments are evaluated where the invocation stands: a name in an argument must not be captured
+                    // by a definition of the macro body, so the body gets a scope of its own inside the parameters'
+                    if params.is_empty() {
+                        inner.extend(self.block(&mbody, depth + 1)?);
+                    } else {
+                        inner.push(Stmt::Braces(self.block(&mbody, depth + 1)?));
+                    }
                     out.push(Stmt::Braces(inner));
                 }
                 Stmt::MacroDef { .. } if self.kinds.macros => {
